@@ -15,7 +15,7 @@ from ..common import Stats, Violation
 from ..gengraph import build_graph, expected_structure, graph_specs, json_payloads, small_payloads, structure
 
 from earthkit.workflows import Cascade, fluent  # noqa: E402
-from earthkit.workflows.graph import Graph, deserialise, from_json, serialise, to_json  # noqa: E402
+from earthkit.workflows.graph import Graph, deserialise, from_json, rename_nodes, serialise, to_json  # noqa: E402
 
 PROPERTY = "C12"
 LEVEL = "exploration"
@@ -104,6 +104,10 @@ def cases(draw):
         pl = json_payloads if route == "json" else (st.sampled_from(sorted(payload_fns.BY_NAME)) if route == "file" else
                                                    st.one_of(small_payloads, json_payloads))
         c["spec"] = draw(graph_specs(max_nodes=12, names="unicode", payloads=pl, dup_bias=False))
+    if route in ("dict", "json") and kind == "spec":
+        # history before the round trip under test: the graph was already serialised once (both routes), and then possibly renamed
+        # in place -- by a prefix, or by a rotation of its own names (every name still occurs, on another node)
+        c["history"] = draw(st.sampled_from([None, None, "serialised_before", "renamed_prefix", "renamed_rotation"]))
     if route == "neq":
         c["spec"] = draw(graph_specs(max_nodes=8, min_nodes=1, names="unicode", payloads=small_payloads, dup_bias=False))
         c["mut"] = [draw(st.sampled_from(["payload", "edge", "outputs", "extra", "input_name"])), draw(st.integers(0, 10**6))]
@@ -160,6 +164,26 @@ def run_case(c) -> tuple[bool, list[str]]:
         g, _objs = build_graph(c["spec"], _payload_fn(route))
         exp = expected_structure(c["spec"], _payload_fn(route))
         n0 = len(exp)
+        hist = c.get("history")
+        if hist:
+            classes.append("history:" + hist)
+            try:
+                serialise(g)
+                if route == "json":
+                    to_json(g)
+            except Exception as e:
+                raise Violation(f"first serialisation raised {type(e).__name__}: {e}", "roundtrip-raises")
+            if hist.startswith("renamed"):
+                names = sorted(exp)
+                if hist == "renamed_prefix":
+                    new_name = {n: "r." + n for n in names}
+                else:
+                    new_name = {n: names[(i + 1) % len(names)] for i, n in enumerate(names)}
+                try:
+                    g = rename_nodes(new_name.__getitem__, g)
+                except Exception as e:
+                    raise Violation(f"rename_nodes raised {type(e).__name__}: {e}", "roundtrip-raises")
+                exp = {new_name[n]: {**e, "inputs": {k: (new_name[pi[0]], pi[1]) for k, pi in e["inputs"].items()}} for n, e in exp.items()}
     try:
         if route == "dict":
             back = deserialise(serialise(g))
